@@ -98,6 +98,10 @@ def constraints():
             if n >= 3 and list(combo) != sorted(combo, key=arms.index):
                 continue        # order matters for 1-2 arms (enumerated), 3-4 arms in pool order
             yield "alternation-%d" % n, ("alt", list(combo))
+    # NULL as one of the alternatives
+    null = ("exact", ("null",))
+    for combo in ([null, arms[2]], [arms[2], null], [arms[0], null, arms[4]], [null, arms[0]], [null, arms[4]]):
+        yield "alternation-with-null", ("alt", list(combo))
 
 
 def con_src(c):
@@ -129,7 +133,9 @@ def values():
           ("list", [("tuple", [("a", ("int", 1))])]), ("list", [("tuple", [("a", ("str", "s"))])]), ("list", [("list", [])]),
           ("expr", "1 + 1", ("int", 2)), ("expr", "incr(1)", ("int", 2)), ("expr", 'select ("a", 0) => {a = 2}', ("int", 2)),
           ("expr", '"a" + ""', ("str", "a")), ("expr", "1.5 + 1.5", ("float", 3.0)), ("expr", "mk(1)", ("tuple", [("a", ("int", 1))])),
-          ("expr", "[1] + [2]", ("list", [("int", 1), ("int", 2)])), ("expr", "4 * 2", ("int", 8)), ("expr", "ident(3)", ("int", 3))]
+          ("expr", "[1] + [2]", ("list", [("int", 1), ("int", 2)])), ("expr", "4 * 2", ("int", 8)), ("expr", "ident(3)", ("int", 3)),
+          # values that are callable: a function, a function literal, a module
+          ("expr", "incr", ("func",)), ("expr", "func () => 1", ("func",)), ("expr", "amod", ("module",)), ("expr", "mk(incr).a", ("func",))]
     # the same values reaching the binding without a static shape the checker could use: only the
     # run-time check stands between them and the binding
     for v in list(vs):
@@ -142,7 +148,7 @@ def values():
 
 
 PRELUDE = ("let incr = func (p) => p + 1;\nlet ident = func (p) => p;\nlet mk = func (p) => {a = p};\n"
-           "let hide = func (p) => select (\"a\", NULL) => {a = p};\nlet pick = func (t) => t.a;\n")
+           "let hide = func (p) => select (\"a\", NULL) => {a = p};\nlet pick = func (t) => t.a;\nlet amod = module {k = 1} => { let r = mod.k; };\n")
 
 
 # ---------------------------------------------------------------------------------------------
@@ -179,6 +185,8 @@ def in_range(r, v):
 
 def admitted(c, v):
     v = value_of(v)
+    if v[0] in ("func", "module"):
+        return False        # none of the constraints of this grammar is a function or a module, equals one or contains one
     if c[0] == "ex":
         return same_shape(c[1], v)
     if c[0] == "range":
